@@ -192,10 +192,11 @@ def run(ctx: Context) -> None:
     ctx.rule('R01.6', "each grid kind is bound to its own dimensions", floor=4)
     ctx.rule('R01.7', "calls between repository functions in the anchored files pass positional arguments to the parameters of the same name (no swapped latitude/longitude, kind/index ...)", floor=20)
     ctx.rule('R01.8', "the dimensions of each mesh grid kind are discovered from the mesh attributes with the documented precedence (shared with C10 R10.5)", floor=5)
-    ctx.rule('R01.9', "a hand built ArakawaC pairs every grid kind with the coordinate names given for that kind", floor=1)
+    ctx.rule('R01.9', "a hand built convention uses the names it was given: ArakawaC pairs every grid kind with the coordinate names given for that kind, a CF grid hands a latitude / longitude name to its topology even when only one is given", floor=2)
     ctx.rule('R01.10', "a native index outside the grid is not wrapped by selection either: a negative index is refused before it reaches Dataset.isel (fact shared with C05 R05.1)", floor=1)
     from . import infra as _infra
     _infra.arakawa_names(ctx, 'R01.9')
+    _infra.cf_grid_names(ctx, 'R01.9')
     ctx.assume("numpy.ravel_multi_index / unravel_index with equal shape, order='C', mode='raise' are mutually inverse on [0, prod(shape)) and raise outside it")
     ctx.assume("xarray Dataset.sizes reports the dimension lengths of the file")
 
@@ -514,6 +515,7 @@ VARIANTS = [
     V('C01', 'negative-index-wraps-in-select', _B, "        if (index_array < 0).any():\n            raise ValueError(\"Indexes must not be negative\")\n", "", 'R01.10'),
     V('C01', 'mesh-shape-kinds-crossed', _U, "            UGridKind.node: (self.topology.node_count,),\n            UGridKind.face: (self.topology.face_count,),", "            UGridKind.node: (self.topology.face_count,),\n            UGridKind.face: (self.topology.node_count,),", 'R01.2'),
     V('C01', 'mesh-shape-edge-unguarded', _U, "        if self.topology.has_edge_dimension:\n            shape[UGridKind.edge] = (self.topology.edge_count,)\n        return shape", "        shape[UGridKind.edge] = (self.topology.edge_count,)\n        return shape", 'R01.2'),
+    V('C01', 'lone-coordinate-name-ignored', 'src/emsarray/conventions/grid.py', "        if latitude is not None or longitude is not None:", "        if latitude is not None and longitude is not None:", 'R01.9'),
     V('C01', 'mode-wrap', _B, "        return int(numpy.ravel_multi_index(indexes, shape))", "        return int(numpy.ravel_multi_index(indexes, shape, mode='wrap'))", 'R01.3'),
     V('C01', 'mode-clip', _B, "        return int(numpy.ravel_multi_index(indexes, shape))", "        return int(numpy.ravel_multi_index(indexes, shape, mode='clip'))", 'R01.3'),
     V('C01', 'order-F', _B, "        indexes = tuple(map(int, numpy.unravel_index(linear_index, shape)))", "        indexes = tuple(map(int, numpy.unravel_index(linear_index, shape, order='F')))", 'R01.3'),
